@@ -968,6 +968,45 @@ def op_commute(st, o):
     return "commutes"
 
 
+@op("A.commute_num")
+def op_commute_num(st, o):
+    """number (op) field and field (op) number are the same field - also when the number is a numpy
+    scalar or the constant vector a numpy array, which numpy routes through the ufunc protocol."""
+    h = st.h[o["on"]]
+    if h.kind != "F":
+        return "skipped"
+    nv = h.fm.nvdim
+    if o["kind"] == "npnum":
+        other = getattr(np, o.get("np", "float64"))(o["v"])
+    else:
+        vec = o["v"]
+        if not (len(vec) == nv or nv == 1):
+            return "skipped"
+        other = np.asarray(vec, dtype=float)
+    if h.fm.array.dtype.kind == "c" and o["f"] not in ("mul", "add"):
+        return "skipped"
+    libf = BIN[o["f"]][0]
+    r1 = expect_ok(sut(lambda: libf(other, h.obj)), f"numpy operand {o['f']} field")
+    r2 = expect_ok(sut(lambda: libf(h.obj, other)), f"field {o['f']} numpy operand")
+    st.stats.oracle("value")
+    st.stats.probe("commute_numpy_operand")
+    bad = []
+    a1, a2 = np.asarray(r1.array), np.asarray(r2.array)
+    finite = a1.shape == a2.shape and bool(np.all(np.isfinite(a1)) and np.all(np.isfinite(a2)))
+    if getattr(r1, "nvdim", None) != getattr(r2, "nvdim", None) or a1.shape != a2.shape or (finite and not np.allclose(a1, a2, rtol=1e-12, atol=0)):
+        bad.append("values differ")
+    else:
+        if (r1.vdims or None) != (r2.vdims or None):
+            bad.append(f"labels {r1.vdims} vs {r2.vdims}")
+        if dict(r1.vdim_mapping) != dict(r2.vdim_mapping):
+            bad.append(f"mapping {dict(r1.vdim_mapping)} vs {dict(r2.vdim_mapping)}")
+        if not np.array_equal(r1.valid, r2.valid):
+            bad.append("validity differs")
+    if bad:
+        raise Violation("commute", f"x{o['f']}f and f{o['f']}x differ for x = {other!r} (field nvdim {nv}, labels {h.fm.vdims}): " + "; ".join(bad), preds=[o["f"], bad[0].split()[0], "numpy-operand"], kind="value")
+    return "commutes"
+
+
 @op("A.cplx")
 def op_cplx(st, o):
     h = st.h[o["on"]]
@@ -987,7 +1026,7 @@ def op_ufunc(st, o):
     if first is None or st.h[first].kind != "F":
         return "skipped"
     ha = st.h[first]
-    objs, arrs = [], []
+    objs, arrs, valids = [], [], []
     for a in args:
         opd = _operand(st, a, ha.box.v.n, ha.fm.nvdim)
         if opd is None:
@@ -996,6 +1035,8 @@ def op_ufunc(st, o):
             return "skipped"
         objs.append(opd[0])
         arrs.append(opd[1])
+        if opd[3] is not None:
+            valids.append(opd[3].fm.valid)
     uf = (UFUNCS1 if len(args) == 1 else UFUNCS2)[o["f"]]
     if any(np.asarray(a).dtype.kind == "c" for a in arrs) and o["f"] in ("maximum", "hypot"):
         return "skipped"
@@ -1005,9 +1046,9 @@ def op_ufunc(st, o):
         arr = uf(*arrs)
     if not isinstance(obj, st.df.Field):
         raise Violation("result.type", f"np.{o['f']} on fields returned {type(obj).__name__}", kind="value")
-    # validity of ufunc results is not stated by C03/C08's list ("unary, component, norm, ...");
-    # it is adopted
-    _finish_result(st, o, obj, ha, np.asarray(arr), np.array(obj.valid, dtype=bool, copy=True), o["f"] in INEXACT)
+    # a ufunc with one field is a unary operation, with two fields a binary one: the operand's validity /
+    # the AND of both (C08; compared only where the profile predicts validity)
+    _finish_result(st, o, obj, ha, np.asarray(arr), np.logical_and.reduce(valids), o["f"] in INEXACT)
     return o["f"]
 
 
@@ -1090,7 +1131,11 @@ def op_areject(st, o):
     if ha.kind != "F" or hb.kind != "F":
         return "skipped"
     same_mesh = ha.box.v.key()[:2] == hb.box.v.key()[:2]
-    if f in ("dot", "cross", "angle"):
+    if f.startswith("np."):
+        if same_mesh:
+            return "skipped"  # (what numpy makes of incompatible component counts is numpy's business)
+        bad_dim = False
+    elif f in ("dot", "cross", "angle"):
         bad_dim = ha.fm.nvdim != hb.fm.nvdim
     elif f == "lshift":
         bad_dim = False
@@ -1111,6 +1156,8 @@ def op_areject(st, o):
     call = {
         "dot": lambda: ha.obj.dot(hb.obj), "cross": lambda: ha.obj.cross(hb.obj), "angle": lambda: ha.obj.angle(hb.obj),
         "lshift": lambda: ha.obj << hb.obj,
+        # the same combination through the ufunc protocol
+        "np.add": lambda: np.add(ha.obj, hb.obj), "np.multiply": lambda: np.multiply(ha.obj, hb.obj), "np.subtract": lambda: np.subtract(ha.obj, hb.obj),
     }.get(f) or (lambda: BIN[f][0](ha.obj, hb.obj))
     res = sut(call)
     st.stats.fault("rejected_args")
